@@ -73,7 +73,10 @@ type Options struct {
 	Product  string
 	Suffix   string // region suffix ("" = none)
 	Strict   bool   // compare with the model's predicted calls/outcomes and report drift
-	IFail    int    // per-mille probability that an operation gets an injected secret-allocation or AEAD failure
+	// SharedNoCache: configurations with ik = "shared" are built with CacheIntermediateKeys = false. newSession looks only at
+	// SharedIntermediateKeyCache, so the SDK still uses the factory's shared cache and Envelope.tla's "shared" mode describes both.
+	SharedNoCache bool
+	IFail         int // per-mille probability that an operation gets an injected secret-allocation or AEAD failure
 }
 
 type opResult struct {
@@ -132,7 +135,7 @@ func (r *runner) policy(pc ProcCfg) *appencryption.CryptoPolicy {
 		appencryption.WithRevokeCheckInterval(time.Duration(r.c.Params.R)*time.Second),
 	)
 	pol.CreateDatePrecision = time.Duration(r.c.Params.P) * time.Second
-	pol.CacheIntermediateKeys = pc.IK != "none"
+	pol.CacheIntermediateKeys = pc.IK != "none" && !(pc.IK == "shared" && r.opt.SharedNoCache)
 	pol.SharedIntermediateKeyCache = pc.IK == "shared"
 	pol.CacheSystemKeys = pc.SK
 	pol.CacheSessions = pc.Sess
@@ -539,7 +542,7 @@ func Run(c *Case, opt Options) (events []fakes.Event, drift []string, fatal stri
 	}
 	fits := opt.Variant == "" || opt.Variant == "simple" || opt.Capacity == 0 || opt.Capacity >= 50
 	r.w.Emit(fakes.Event{"e": "reset", "E": c.Params.E, "R": c.Params.R, "P": c.Params.P, "now": now, "cfg": cfgEv,
-		"variant": opt.Variant, "capacity": opt.Capacity, "fits": fits})
+		"variant": opt.Variant, "capacity": opt.Capacity, "fits": fits, "sharedNoCache": opt.SharedNoCache})
 	defer func() {
 		if x := recover(); x != nil {
 			fatal = fmt.Sprintf("driver panic: %v\n%s", x, debug.Stack())
@@ -688,6 +691,7 @@ func Replay(inPath, tracePath, outPath string, opt Options, variants []string, c
 		if len(capacities) > 0 {
 			o.Capacity = capacities[(n/7)%len(capacities)]
 		}
+		o.SharedNoCache = (n/2)%2 == 1
 		if n%3 == 0 {
 			o.Suffix = "us-west-2" // region-suffixed key ids (a metastore exposing GetRegionSuffix)
 		}
